@@ -752,6 +752,7 @@ def run(ctx):
     ctx.rule('C03.RANGE', lambda: rule_range(ctx), 4)
     ctx.rule('C03.HEIGHTS', lambda: rule_heights(ctx), 2)
     ctx.rule('C03.TOUCHED', lambda: rule_touched(ctx), 4)
+    ctx.rule('C03.MEMO', lambda: rule_memo(ctx), 12)
     # headers are an observable of the index: the header merkle cache must not keep orphaned block hashes
     from . import c11
     ctx.rule('C03.HEADERMC', lambda: c11.rule_truncate(ctx, 'C03.HEADERMC'), 2)
@@ -773,3 +774,75 @@ def run(ctx):
     else:
         ctx.bad('C03.HISTTRUNC', ctx.key(fb, None, 'commit point'), 'backup flush has no single UTXO commit with the state record',
                 loc=ctx.loc(fb, fb.node))
+
+
+def rule_memo(ctx, rule='C03.MEMO'):
+    '''DB and History keep no derived copy of table / file content that a backup does not also cut.  A field that a
+    *reader* method fills (a memo in front of fs_tx_hash, a cache of rows) survives the reorganisation; tx numbers and
+    heights are re-used by the replacing blocks, so the memo then answers with the orphaned block's data.
+
+    Readers = methods of the class not reachable (plain calls) from its state-transition entry points (open / flush /
+    backup / compaction).  Every field a reader writes - by assignment, subscript store or mutating call - must also be
+    written by a method reachable from the backup entry point.'''
+    n = 0
+    MUT = ('append', 'extend', 'add', 'update', 'pop', 'popitem', 'clear', 'setdefault', 'insert', 'remove', 'discard', 'truncate')
+    for mod, cls, entries, backup_entries in (
+            ('db', 'DB', ('open_for_sync', 'open_for_serving', 'open_for_compacting', 'flush_dbs', 'flush_backup', 'set_flush_count',
+                          'populate_header_merkle_cache', '__init__'), ('flush_backup',)),
+            ('hist', 'History', ('open_db', 'close_db', 'flush', 'backup', 'add_unflushed', '_compact_history', 'cancel_compaction',
+                                 '_cancel_compaction', 'clear_excess', '__init__'), ('backup',))):
+        rel = ctx.repo.path(mod)
+        methods = {f.name: f for f in ctx.repo.funcs.values() if f.unit.relpath == rel and f.cls == cls and f.parent is None}
+
+        def closure(names):
+            seen, work = set(), [methods[x] for x in names if x in methods]
+            while work:
+                g = work.pop()
+                if g.key in seen:
+                    continue
+                seen.add(g.key)
+                for e in ctx.cg.callees(g, ('CALL', 'AWAIT', 'THREAD')):
+                    if e[1].cls == cls and e[1].unit.relpath == rel:
+                        work.append(e[1])
+                for nested in g.nested.values():
+                    work.append(nested)
+            return seen
+        trans = closure(entries)
+        back = closure(backup_entries)
+
+        def writes(g):
+            out = set()
+            for s_ in g.own_nodes():
+                tg = s_.targets if isinstance(s_, (ast.Assign, ast.Delete)) else [s_.target] if isinstance(s_, (ast.AugAssign, ast.AnnAssign)) else []
+                for t in tg:
+                    for e in (t.elts if isinstance(t, (ast.Tuple, ast.List)) else [t]):
+                        b = e
+                        while isinstance(b, ast.Subscript):
+                            b = b.value
+                        c = ctx.res.canon(b, g) if isinstance(b, (ast.Attribute, ast.Name)) else None
+                        if c and c.startswith('self.') and c.count('.') == 1 and (isinstance(e, ast.Subscript) or isinstance(b, ast.Attribute)):
+                            out.add(c)
+                if isinstance(s_, ast.Call) and isinstance(s_.func, ast.Attribute) and s_.func.attr in MUT:
+                    c = ctx.res.canon(s_.func.value, g)
+                    if c and c.startswith('self.') and c.count('.') == 1:
+                        out.add(c)
+            return out
+        back_w = set()
+        for g in ctx.repo.funcs.values():
+            if g.key in back:
+                back_w |= writes(g)
+        for name, g in sorted(methods.items()):
+            fam = [g] + list(g.nested.values())
+            if g.key in trans:
+                continue
+            n += 1
+            w = set()
+            for x in fam:
+                w |= writes(x)
+            stale = sorted(w - back_w)
+            ctx.check(not stale, rule, ctx.key(g, None, 'reader keeps no state a backup leaves behind'),
+                      f'{cls}.{name} writes no field, or only fields the backup path also cuts',
+                      f'{cls}.{name} is a reader but fills {stale}, which no method on the backup path ({", ".join(backup_entries)}) '
+                      'writes: after a reorganisation it still answers from the orphaned blocks (tx numbers and heights are re-used)',
+                      loc=ctx.loc(g, g.node))
+    return n
